@@ -60,6 +60,18 @@ pub struct Case {
 }
 
 pub fn emit_case(krate: &mut Crate, case: &Case, rep: &mut Rep) {
+    // every generated parser also meets hostile text (multi-byte, control characters, long words, cut literals): the
+    // generated recognisers and lexer definition must answer like route D, in particular never panic
+    let mut case = Case { origin: case.origin.clone(), text: case.text.clone(), inputs: case.inputs.clone(), lex: case.lex, fancy: case.fancy };
+    {
+        let mut r = crate::rng::Rng::new(crate::ag::fnv(&case.text));
+        let lits = crate::c15::lits_of_dump_text(&case.text);
+        let mut noise = crate::c15::inputs_for(None, &lits, &mut r, 8);
+        r.shuffle(&mut noise);
+        noise.truncate(14);
+        case.inputs.extend(noise);
+    }
+    let case = &case;
     for glr in [false, true] {
         for gen_table in [0u8, 1] {
             let m = format!("g{}", krate.modules.len());
